@@ -116,6 +116,10 @@ fn batch(tier: &str) -> i32 {
             simcore::report_hang(PROPERTY, seed, idx, json!({"engine": "e1", "minimised": sc}))
         },
     );
+    agg.recheck_determinism(|idx| {
+        let mut rng = Rng::derive(seed, ENGINE_TAG, idx);
+        execute(&gen::generate(&mut rng, tier, idx)).fp
+    });
     agg.faults.declare(streams::FAULT_KINDS);
     agg.probes.declare(exec::PROBES);
     let wall = t0.elapsed().as_secs_f64();
